@@ -564,14 +564,28 @@ let fam_c13 tier r =
     let anyrd st =
       let t = pick r [ 0; 0; 1; 2; 3; 4; 5; 6; 7; 8; -1 ] in
       ignore st;
-      { rd_type = z t; rd_handle = z (pick r [ 0; 0; 5 ]); rd_file = z (pick r [ 0; 0; 4 ]); rd_path = pick r [ None; None; Some (s "/tmp/f") ] } in
+      (* FILE targets include the standard streams themselves (ids 1-3: descriptors 0-2) *)
+      { rd_type = z t; rd_handle = z (pick r [ 0; 0; 5 ]); rd_file = z (pick r [ 0; 0; 0; 4; 4; 1; 2; 3 ]); rd_path = pick r [ None; None; Some (s "/tmp/f") ] } in
     let o = { default_options with o_in = anyrd 0; o_out = anyrd 1; o_err = anyrd 2; o_parent = chance r 1 4; o_discard = chance r 1 4;
                                    o_file = z (pick r [ 0; 0; 0; 4 ]); o_path = pick r [ None; None; None; Some (s "/tmp/g") ];
                                    o_input_data = chance r 1 4; o_input_size = z (pick r [ 0; 0; 3 ]); o_fork = chance r 1 6 } in
     let av = pick r [ c 0; c 0; c 0; None; Some [] ] in
     { sc_world = world_with ~fds:user_fds ~files:user_files ~extra_fs:[ (s "/tmp/f", FFile) ] [ b_exit 0 ];
       sc_ops = [ new_ (); start ~opts:o ~script:[ a_exit 0 ] av; pid (); destroy () ] } in
-  [ { name = "C13/random-options-through-start"; exhaustive = false; scs = List.init n rr } ]
+  (* FILE redirects whose FILE is one of the standard streams (descriptor 0, 1 or 2 behind it), by
+     explicit type and by the member alone: documented, valid, must be accepted *)
+  let std_files =
+    List.concat_map (fun st -> List.concat_map (fun f -> List.map (fun ty ->
+        let r1 = { rd_type = z ty; rd_handle = z 0; rd_file = z f; rd_path = None } in
+        let o = match st with
+          | 0 -> { default_options with o_in = r1 }
+          | 1 -> { default_options with o_out = r1 }
+          | _ -> { default_options with o_err = r1 } in
+        { sc_world = world_with ~fds:user_fds ~files:user_files ~extra_fs:[ (s "/tmp/f", FFile) ] [ b_exit 0 ];
+          sc_ops = [ new_ (); start ~opts:o ~script:[ a_exit 0 ] (c 0); pid (); destroy () ] })
+        [ 0; 6 ]) [ 1; 2; 3; 4 ]) [ 0; 1; 2 ] in
+  [ { name = "C13/random-options-through-start"; exhaustive = false; scs = List.init n rr };
+    { name = "C13/file-redirects-on-standard-streams"; exhaustive = true; scs = std_files } ]
 
 (* ---- C03: launch fidelity ---- *)
 let rand_bytes r n =
